@@ -119,7 +119,8 @@ Definition ipt_ok (h : list pt) (r : ipt) : Prop :=
     iop0 r = pop (nth i h dpt) /\ iop1 r = pop (nth (S i) h dpt) /\
     0 <= ip0 r /\ ip0 r <= 1 /\ ip0 r + ip1 r == 1 /\
     ip0 r * px (nth i h dpt) + ip1 r * px (nth (S i) h dpt) == ix r /\
-    iy r == ip0 r * py (nth i h dpt) + ip1 r * py (nth (S i) h dpt).
+    iy r == ip0 r * py (nth i h dpt) + ip1 r * py (nth (S i) h dpt) /\
+    px (nth i h dpt) < px (nth (S i) h dpt).
 
 Lemma nth_map_px h i : nth i (map px h) 0 = px (nth i h dpt).
 Proof. change 0 with (px dpt). apply map_nth. Qed.
@@ -127,7 +128,7 @@ Proof. change 0 with (px dpt). apply map_nth. Qed.
 Lemma interp_at_ok h i x : bracket (map px h) i x -> ipt_ok h (interp_at h i x).
 Proof.
   intro B. pose proof (bracket_weights _ _ _ B) as W. cbv zeta in W.
-  destruct B as (Hl & _). rewrite map_length in Hl. rewrite !nth_map_px in W.
+  destruct B as (Hl & Hab & _). rewrite map_length in Hl. rewrite !nth_map_px in W, Hab.
   destruct W as (Hn & W0 & W1 & Ws & Wx).
   exists i. unfold interp_at. cbn [iop0 iop1 ip0 ip1 ix iy].
   repeat split; try assumption; reflexivity.
